@@ -236,7 +236,9 @@ class ExprMixin:
             if ch is None:
                 raise Fork(node, 2)
             t = (ch == 0)
-            st.conds.append((self.eval(node.test, st), t, node))
+            from .interp import canon_cond
+            ctv, cpol = canon_cond(self.eval(node.test, st), t)
+            st.conds.append((ctv, cpol, node))
         return self.eval(node.body if t else node.orelse, st)
 
     def _minmax_ifexp(self, node, tv, st):
